@@ -143,3 +143,14 @@ def c18_reserved_parameter_names(case, result):
     if case.get('kind') == 'bind':
         return 'function' in names and 'function' in passed
     return False
+
+def c11_self_named_column(case, result):
+    # groupby(keys).ungroup() where a KEY column is literally named 'self': ungroup hands every key cell by keyword to Dict.__call__(self, **kwargs)
+    # and the call raises TypeError (same root cause as c16_self_named_key).  Only that failure is excused: the key table and every sub-table were
+    # right (the oracle reports its first complaint), and listby / unlist / pivot / unpivot and VALUE columns named 'self' stay claimed.
+    if case.get('kind') != 'groupby' or 'self' not in (case.get('by') or []):
+        return False
+    obs = result.get('obs')
+    return (result.get('viol') or '').startswith("ungroup raised TypeError") and "multiple values for argument 'self'" in (result.get('viol') or '') and \
+        isinstance(obs, list) and len(obs) == 3 and obs[2] == ['ERR', 'TypeError']
+
